@@ -250,7 +250,7 @@ MUTANTS += [
     }
 
     void adjust_precomputed""")]),
- dict(name='c12-nondelegable-keygen-hidden-contributes', prop='C12', expect='R-HIDDEN',
+ dict(name='c12-nondelegable-keygen-hidden-contributes', prop='C12', expect='VIOLATION property=C12',
       edits=[('src/wkdibe/api.cpp', """            if (k != attrs.length && attrs.attrs[k].idx == i) {
                 if (!attrs.attrs[k].omitFromKeys) {
                     temp.multiply(params.h[i], attrs.attrs[k].id);
@@ -882,4 +882,37 @@ MUTANTS += [
  dict(name='seed-C18-fq12-multiply-c04', prop='C04', patch='seeded/C18-fq12-multiply-scratch-in-output/patch.diff', expect='R-POLY'),
  dict(name='seed-C19-core-h-overaligned', prop='C19', patch='seeded/C19-core-h-overaligned-word-structs/patch.diff', expect='R-LAYOUT'),
  dict(name='seed-C20-sampler-static-scratch', prop='C20', patch='seeded/C20-generator-sampler-static-scratch/patch.diff', expect='R-EFFECT'),
+]
+# ---- R-SCHEME (C11-C14, C16): discrete-log-domain effect tables
+MUTANTS += [
+ dict(name='seed-C11-qualifykey-loop-stops-early', prop='C11', patch='seeded/C11-qualifykey-loop-stops-with-parent-slots/patch.diff', expect='R-SCHEME'),
+ dict(name='seed-C14-adjust-nondelegable-drops-slot', prop='C14', patch='seeded/C14-adjust-nondelegable-drops-vacated-slot/patch.diff', expect='R-SCHEME'),
+ dict(name='c11-scheme-keygen-a1-uses-other-randomness', prop='C11', expect='scheme|wkdibe::keygen',
+      edits=[('src/wkdibe/api.cpp', '        sk.a0.add(sk.a0, msk.g2alpha);\n        sk.a1.multiply_frobenius(params.g, rx);\n    }\n\n    void qualifykey',
+              '        sk.a0.add(sk.a0, msk.g2alpha);\n        random_zpstar(rx, r, get_random_bytes);\n        sk.a1.multiply_frobenius(params.g, rx);\n    }\n\n    void qualifykey')]),
+ dict(name='c11-scheme-qualifykey-b-not-rerandomised', prop='C11', expect='scheme|wkdibe::qualifykey',
+      edits=[('src/wkdibe/api.cpp', '                    qualified.b[j].hexp.multiply(params.h[i], t);\n                    qualified.b[j].hexp.add(qualified.b[j].hexp, sk.b[x].hexp);', '                    qualified.b[j].hexp.copy(sk.b[x].hexp);')]),
+ dict(name='c11-scheme-keygen-wrong-h-index', prop='C11', expect='scheme|wkdibe::keygen',
+      edits=[('src/wkdibe/api.cpp', '                sk.b[j].hexp.multiply(params.h[i], r);', '                sk.b[j].hexp.multiply(params.h[j], r);')]),
+ dict(name='c11-scheme-decrypt-negates-wrong-term', prop='C11', expect='scheme|wkdibe::decrypt',
+      edits=[('src/wkdibe/api.cpp', '        a0affine.negate(a0affine);\n        bls12_381::AffinePair pairs[2];', '        caffine.negate(caffine);\n        bls12_381::AffinePair pairs[2];')]),
+ dict(name='c11-scheme-resample-bsig-not-rerandomised', prop='C11', expect='scheme|wkdibe::resamplekey',
+      edits=[('src/wkdibe/api.cpp', '            temp.multiply(params.hsig, t);\n            resampled.bsig.add(sk.bsig, temp);', '            resampled.bsig.copy(sk.bsig);')]),
+ dict(name='c13-scheme-verify-omits-message-term', prop='C13', expect='scheme|wkdibe::verify_precomputed',
+      edits=[('src/wkdibe/api.cpp', '            prodexp.multiply(params.hsig, message);\n            prodexp.add(prodexp, precomputed.prodexp);\n            a0affine.from_projective(signature.a0);', '            prodexp.copy(precomputed.prodexp);\n            a0affine.from_projective(signature.a0);')]),
+ dict(name='c14-scheme-adjust-precomputed-adds-instead-of-subtracts', prop='C14', expect='scheme|wkdibe::adjust_precomputed',
+      edits=[('src/wkdibe/api.cpp', '        while (i != from.length) {\n            const Attribute& from_attr = from.attrs[i];\n            diff.subtract(group_order, from_attr.id);\n            temp.multiply(params.h[from_attr.idx], diff);',
+              '        while (i != from.length) {\n            const Attribute& from_attr = from.attrs[i];\n            temp.multiply(params.h[from_attr.idx], from_attr.id);')]),
+ dict(name='c16-scheme-lq-encrypt-uses-p-not-sp', prop='C16', expect='scheme|lqibe::encrypt',
+      edits=[('src/lqibe/api.cpp', '        rsp.multiply_frobenius(params.sp, rx);', '        rsp.multiply_frobenius(params.p, rx);')]),
+ dict(name='c11-benign-scheme-keygen-order-of-final-steps', prop='C11', benign=True, expect='',
+      edits=[('src/wkdibe/api.cpp', '        sk.a0.multiply(sk.a0, r);\n        sk.a0.add(sk.a0, msk.g2alpha);\n        sk.a1.multiply_frobenius(params.g, rx);\n    }\n\n    void qualifykey',
+              '        sk.a1.multiply_frobenius(params.g, rx);\n        sk.a0.multiply(sk.a0, r);\n        sk.a0.add(sk.a0, msk.g2alpha);\n    }\n\n    void qualifykey')]),
+ dict(name='c14-benign-scheme-adjust-precomputed-uses-negate', prop='C14', benign=True, expect='',
+      edits=[('src/wkdibe/api.cpp', '            } else if (from_attr.idx < to_attr.idx) {\n                diff.subtract(group_order, from_attr.id);\n                temp.multiply(params.h[from_attr.idx], diff);\n                precomputed.prodexp.add(precomputed.prodexp, temp);',
+              '            } else if (from_attr.idx < to_attr.idx) {\n                temp.multiply(params.h[from_attr.idx], from_attr.id);\n                temp.negate(temp);\n                precomputed.prodexp.add(precomputed.prodexp, temp);')]),
+]
+MUTANTS += [
+ dict(name='c11-benign-qualifykey-pointer-refactor', prop='C11', benign=True, expect='', patch='selftest/fixes/benign-qualifykey-pointer-refactor.patch'),
+ dict(name='c12-benign-qualifykey-pointer-refactor', prop='C12', benign=True, expect='', patch='selftest/fixes/benign-qualifykey-pointer-refactor.patch'),
 ]
